@@ -320,6 +320,7 @@ func c03Enum() *senum {
 			func() *rt.Node { return rt.Assign("+=", Id("x"), I(10)) },
 			func() *rt.Node { return rt.Assign("=", Id("pk"), Id("x")) },
 			func() *rt.Node { return rt.Call("p", Id("pk"), Id("_")) },
+			func() *rt.Node { return rt.Assign("=", Id("pk"), rt.Nil()) }, // a nil-valued variable still shadows the point key
 		},
 		loopOnly: []nodeFn{func() *rt.Node { return rt.Break() }, func() *rt.Node { return rt.Continue() }},
 		conds: []nodeFn{
@@ -389,7 +390,7 @@ func init() {
 		Level: "model_checking",
 		Rule: "(A) every ordered pair of 26 condition representatives (all truthiness classes; literals, variables, point keys, a tag, an absent name) in if/elif/else, and each as for-condition; " +
 			"(B) 17 iterables (lists, strings incl. multi-byte, 0/1/2-key maps, point values, non-iterables) x 4 loop-variable names x 9 bodies (continue, break, nested loop, shadowing, mutation during iteration); " +
-			"(C) every program of total size <=4 (thorough <=5) statements, nesting <=3, over {probe, x=x+1, y=7, x+=10, break, continue} x if / if-else / if-elif-else x the 8 three-clause for shapes x 3 for-in forms; " +
+			"(C) every program of total size <=4 (thorough <=5) statements, nesting <=3, over {probe(x,y), probe(pk,_), x=x+1, y=7, x+=10, pk=x, pk=nil, break, continue} x if / if-else / if-elif-else x the 8 three-clause for shapes x 3 for-in forms; " +
 			"ordered probe trace + final point compared with the reference interpreter; map iteration order is tried in both orders",
 		Assumptions: []string{"non-terminating programs are cut by a signal after 3000 polls (real) / 40000 steps (reference) and compared as trace prefixes"},
 		Run:            c03Run,
